@@ -568,6 +568,79 @@ func randomScenario(rd *vlib.Rand, res *vlib.Result) Case {
 	return out
 }
 
+// largeScenarios: the size tier, run in every tier (quick too). One heap and one queue holding several
+// hundred elements (250..450: constructor + pushes / updates), then for every class of mid-iteration
+// call one scenario at a random iterator position (plus position 0.. via the unchanged drain): a change
+// of the code that is guarded by a size (`gen++` only while `len(h.a) <= 200`) is invisible to the
+// <= 40-element random states.
+func largeScenarios(rd *vlib.Rand, pq bool) []Case {
+	n := rd.Range(250, 450)
+	c := Case{Kind: "heap", Ord: hc.Orders[rd.Intn(3)], Ctor: hc.PickCtor(rd), U: 8}
+	if pq {
+		c.Kind = "pq"
+	}
+	prio := func() int { return rd.Intn(n / 3) }
+	for i := 0; i < n/2; i++ {
+		if pq {
+			c.Init = append(c.Init, [2]int{i, prio()})
+		} else {
+			c.Init = append(c.Init, [2]int{prio(), i + 1})
+		}
+	}
+	for i := n / 2; i < n; i++ {
+		if pq {
+			c.Ops = append(c.Ops, Op{Name: "update", A: i, B: prio()})
+		} else {
+			c.Ops = append(c.Ops, Op{Name: "push", A: prio(), B: i + 1})
+		}
+	}
+	// keys 0..n-1 are held (queue); n items are held (heap)
+	var mids []*Op
+	if pq {
+		key := func() int { return rd.Intn(n) }
+		mids = []*Op{
+			{Name: "qpop"},
+			{Name: "update", A: key(), B: -1},     // existing key, lower
+			{Name: "update", A: key(), B: n},      // existing key, higher
+			{Name: "update", A: n + 5, B: prio()}, // new key
+			{Name: "update", A: n + 6, B: -2},     // new key that becomes the minimum
+			{Name: "remove", A: key()},            // present
+			{Name: "remove", A: n + 7},            // absent: contents unchanged
+			{Name: "qgrow", A: 64},
+		}
+		// existing key, equal priority: resolved on a shadow
+		sh := hc.NewImplSafe(c)
+		for _, o := range c.Ops {
+			sh.Apply(o)
+		}
+		k := key()
+		if p, perr := sh.QPriority(k); perr == "" {
+			mids = append(mids, &Op{Name: "update", A: k, B: p})
+		}
+	} else {
+		mids = []*Op{
+			{Name: "pop"},
+			{Name: "push", A: -1, B: 99999}, // new minimum
+			{Name: "push", A: n, B: 99998},  // new maximum: stays at the end of the array
+			{Name: "push", A: prio(), B: 99997},
+			{Name: "grow", A: 64},
+			{Name: "shrink", A: 0},
+		}
+	}
+	out := []Case{scenario(c, n, nil, 3)} // unchanged: every element once, then exhausted (for ever)
+	for _, mid := range mids {
+		k := 1 + rd.Intn(n-1) // inside the snapshot: under way and not exhausted
+		after := 3
+		if rd.Chance(1, 3) {
+			after = n - k + 2
+		}
+		out = append(out, scenario(c, k, mid, after))
+	}
+	// the exhausted iterator, then a mutation, then Next
+	out = append(out, scenario(c, n+1, mids[0], 2))
+	return out
+}
+
 func nontrivial(c Case) bool {
 	nexts, mids := 0, 0
 	seenIter := false
@@ -591,7 +664,7 @@ func main() {
 	res := vlib.NewResult("C15", "heap half: scenarios = container state x iterator position (0..len Nexts done) x one mid-iteration call "+
 		"(Push of every relative priority, Pop incl. the pop that empties, Update of an existing key to a lower / higher / equal priority, Update of a new key, Remove present / absent, Grow, Shrink, none) "+
 		"x 3 further Nexts (to exhaustion when unchanged), on xheap.Heap and xheap.PriorityQueue; exhaustive for every insertion order and tie pattern of <= 3 (quick) / <= 5 (thorough) elements, "+
-		"plus random larger states (<= 40 elements, 3 orders, less/cmp constructors); non-trivial = at least 2 Nexts and a mutating call after the iterator was made (exhaustive part: each state counts once); distinct = different line sequence")
+		"plus random larger states (<= 40 elements, 3 orders, less/cmp constructors) and, in every tier, one heap and one queue of 250..450 elements with one scenario per class of mid-iteration call, the unchanged drain and the exhausted-then-mutated iterator; non-trivial = at least 2 Nexts and a mutating call after the iterator was made (exhaustive part: each state counts once); distinct = different line sequence")
 	res.Property = "C15"
 	m, err := vlib.StartModel(env.Driver, "heap")
 	if err != nil {
@@ -663,6 +736,18 @@ func main() {
 	}
 	res.Exhaustive = r.exhaustive(maxN, start.Add(budget*2/3))
 	rd := vlib.NewRand(env.Seed)
+	for _, pq := range []bool{false, true} {
+		var cs []Case
+		if p, v := vlib.Try(func() { cs = largeScenarios(rd.Fork(), pq) }); p {
+			res.Fail(vlib.Failure{Source: "correspondence", Kind: "c15-heap-harness-panic", What: fmt.Sprintf("generator of the large scenarios panicked: %v", v)})
+			continue
+		}
+		for _, c := range cs {
+			res.Count("large-" + c.Kind)
+			res.Case(c.Key(), nontrivial(c), nil)
+		}
+		r.checkBatch(cs)
+	}
 	maxCases := 3000
 	if env.Thorough() || env.Deep {
 		maxCases = 40000
